@@ -296,11 +296,16 @@ def run(ctx):
         "readers. non-trivial = at least one operator directly nested in another operator (a parenthesisation "
         "decision); distinct by case text.")
     expr_layer(ctx, drv, mdl)
+    import c03_models
+    c03_models.model_layer(ctx, build)
 
 
 def replay(ctx, path):
     r = json.load(open(path))
     build = vf.build_repo("plain")
+    if r.get("mode") == "model":
+        import c03_models
+        return c03_models.replay_model(ctx, build, path)
     drv = vf.compile_driver(build, os.path.join(vf.ROOT, "harness/c03_driver.cpp"))
     mdl = vf.ocaml_driver("gen")
     if r.get("mode") == "ast":
